@@ -1,6 +1,6 @@
 import Deb822Verif.Driver.Proto
 import Deb822Verif.Model.Copyright
-/-! C17 driver: `glob.match`, `cpr.find` (see harness/src/cpr.rs for the line format). -/
+/-! C17 driver: `glob.match`, `glob.big`, `cpr.find` (see harness/src/cpr.rs for the line format). -/
 namespace Deb822Verif.Driver.Cpr
 open Deb822Verif Proto Text Glob Copyright
 
@@ -27,21 +27,27 @@ def showO {α} (f : α → String) : Outcome α → String
   | .ok a => f a
   | .panic _ => "PANIC"
 
-def showAnswer (tag : String) (a : Answer) : String :=
-  s!"{tag}[ok files={showO showIdx a.idx} lic={showO showLic a.lic}]"
+/-- the copyright holders of the paragraph found: `<count>:<list>` (`0:` ≠ `1:x`, the list holding
+    one empty string) -/
+def showCpr : Option (List Str) → String
+  | none => "none"
+  | some l => s!"{l.length}:{encList l}"
+
+def showAnswer (tag : String) (a : Answer) (cpr : Outcome (Option (List Str))) : String :=
+  s!"{tag}[ok files={showO showIdx a.idx} lic={showO showLic a.lic} cpr={showO showCpr cpr}]"
 
 def showLossless (tag : String) (r : Except Lossless.Err Doc) (path : Str) : String :=
   match r with
   | .error .notMachineReadable => s!"{tag}[nmr]"
   | .error .parseError => s!"{tag}[perr]"
-  | .ok c => showAnswer tag (Lossless.answer c path)
+  | .ok c => showAnswer tag (Lossless.answer c path) (Lossless.foundCopyright c path)
 
 def showLossy (tag : String) (r : Except Lossy.Err Lossy.Copyright) (path : Str) : String :=
   match r with
   | .error .notMachineReadable => s!"{tag}[nmr]"
   | .error .parseError => s!"{tag}[perr]"
   | .error (.msg m) => s!"{tag}[err:{encStr m}]"
-  | .ok c => showAnswer tag (Lossy.answer c path)
+  | .ok c => showAnswer tag (Lossy.answer c path) (Lossy.foundCopyright c path)
 
 def handle (op : String) (args : List String) : Option String :=
   match op, args with
@@ -52,6 +58,17 @@ def handle (op : String) (args : List String) : Option String :=
     -- white space separates patterns, `any` stops at the first match
     if g.contains '\n' then none
     else pure (showO encBool (anyMatch (Lossy.deserializeFileList g) p))
+  | "glob.big", [u, n, pu, m] => do
+    -- `unit` x n against `punit` x m (the model has no size limit; the family stays below the
+    -- regex crate's compiled-size limit, see harness/src/cpr.rs)
+    let u ← decStr u
+    let pu ← decStr pu
+    let n ← n.toNat?
+    let m ← m.toNat?
+    if u.any isWhitespace || u.isEmpty || n == 0 || (String.ofList u).utf8ByteSize * n > 1000000
+        || (String.ofList pu).utf8ByteSize * m > 1000000 then none
+    else pure (showO encBool (anyMatch (Lossy.deserializeFileList (List.replicate n u).flatten)
+      (List.replicate m pu).flatten))
   | "cpr.find", [t, p, so, ps] => do
     let s ← decStr t
     let path ← decStr p
